@@ -401,6 +401,16 @@ fn fixed_tx(ctx: &mut Ctx, tape: &[u8]) -> CaseResult {
                         }
                         Err(_) => {}
                     }
+                } else if step == 0 {
+                    // the deprecated whole-set setter, given the very witness-set bytes the transaction was loaded with:
+                    // nothing may change (body, auxiliary data, hash, every witness field)
+                    let items = doc.as_array().unwrap();
+                    let wits_slice = input[items[1].start..items[1].end].to_vec();
+                    #[allow(deprecated)]
+                    let r = lib("set_witness_set", || ftx.set_witness_set(&wits_slice))?;
+                    if r.is_ok() {
+                        history.push("set_witness_set(own bytes)".into());
+                    }
                 }
             }
         }
